@@ -52,8 +52,10 @@ Record table (W : Type) := {
   t_loci : list (nat * list elem);         (* owner process, initial elements *)
   t_procs : list proc;
   t_progs : list (dynprog W);
-  t_world : W }.
-Arguments t_maxtime {W}. Arguments t_loci {W}. Arguments t_procs {W}. Arguments t_progs {W}. Arguments t_world {W}.
+  t_world : W;
+  t_equil : list (list elem) -> W -> bool }.   (* a process' own atEquilibrium test, beyond t >= maximumTime
+                                                  (Opinion: both of its edge loci are empty) *)
+Arguments t_maxtime {W}. Arguments t_loci {W}. Arguments t_procs {W}. Arguments t_progs {W}. Arguments t_world {W}. Arguments t_equil {W}.
 
 Inductive ename := NEv (pi j : nat) | NPost (prog : nat).
 
@@ -325,7 +327,7 @@ Fixpoint stoch_loop (tb : table W) (pf fuel : nat) (t : Q) (events : nat) (s : s
   match fuel with
   | O => (t, events, set_stuck s)
   | S f =>
-      if Qle_bool (t_maxtime tb) t then (t, events, s)
+      if Qle_bool (t_maxtime tb) t || t_equil tb (loci s) (world s) then (t, events, s)
       else
         let trs := transitions tb in
         let a := sum_rates s trs in
@@ -420,7 +422,7 @@ Fixpoint sync_loop (tb : table W) (pf fuel : nat) (t : Q) (events steps : nat) (
   match fuel with
   | O => (t, events, steps, set_stuck s)
   | S f =>
-      if Qle_bool (t_maxtime tb) t then (t, events, steps, s)
+      if Qle_bool (t_maxtime tb) t || t_equil tb (loci s) (world s) then (t, events, steps, s)
       else
         let s0 := set_clock t s in
         let '(n, s1) := run_pending tb pf t 0 s0 in
